@@ -2906,7 +2906,12 @@ primary_expression
         if ($1.type == EXPRESSION_TYPE_INTEGER &&
             $3.type == EXPRESSION_TYPE_INTEGER)
         {
-          if ($3.value.integer != 0)
+          if ($1.value.integer == INT64_MIN && $3.value.integer == -1)
+          {
+            $$.value.integer = YR_UNDEFINED;  // as in OP_INT_DIV
+            $$.type = EXPRESSION_TYPE_INTEGER;
+          }
+          else if ($3.value.integer != 0)
           {
             $$.value.integer = OPERATION(/, $1.value.integer, $3.value.integer);
             $$.type = EXPRESSION_TYPE_INTEGER;
@@ -2930,7 +2935,12 @@ primary_expression
 
         fail_if_error(yr_parser_emit(yyscanner, OP_MOD, NULL));
 
-        if ($3.value.integer != 0)
+        if ($1.value.integer == INT64_MIN && $3.value.integer == -1)
+        {
+          $$.value.integer = YR_UNDEFINED;  // as in OP_MOD
+          $$.type = EXPRESSION_TYPE_INTEGER;
+        }
+        else if ($3.value.integer != 0)
         {
           $$.value.integer = OPERATION(%, $1.value.integer, $3.value.integer);
           $$.type = EXPRESSION_TYPE_INTEGER;
